@@ -90,7 +90,7 @@ def main():
     out_dir = os.path.join(VERIF, "seeded", sid)
     os.makedirs(out_dir, exist_ok=True)
     for f in ("patch.diff", "demo.diff", "README.md"):
-        if os.path.exists(os.path.join(src, f)):
+        if os.path.exists(os.path.join(src, f)) and os.path.realpath(src) != os.path.realpath(out_dir):
             shutil.copy(os.path.join(src, f), os.path.join(out_dir, f))
     shutil.copy(os.path.join(src, "patch.diff"), "/tmp/sv-patch.diff")
     shutil.copy(os.path.join(src, "demo.diff"), "/tmp/sv-demo.diff")
